@@ -15,3 +15,4 @@ import Discv5Model.Props.C01
 import Discv5Model.Props.C02
 import Discv5Model.Props.C11
 import Discv5Model.Props.C12
+import Discv5Model.Props.C14
